@@ -4,6 +4,8 @@ import (
 	"crypto/ecdsa"
 	"crypto/elliptic"
 	cryptorand "crypto/rand"
+	"crypto/rsa"
+	"crypto/x509"
 	"encoding/binary"
 	"fmt"
 	"math/big"
@@ -36,7 +38,7 @@ func init() {
 		MinEvals:    floor(8000, 150000),
 		MinDistinct: floor(2000, 40000),
 		RequiredCells: func(string) []string {
-			cells := []string{"coerced-secp256k1/normal", "coerced-secp256k1/short-coordinate", "pairs/equal", "pairs/different", "alt/accepted-canonical", "alt/rejected-by-parse", "alt/rejected-by-pubkey", "string/rejected", "multibase/other", "codec/unsupported", "varint/non-minimal"}
+			cells := []string{"rsa-shapes", "rsa-shapes/small-exponent", "rsa-shapes/odd-bit-length", "coerced-secp256k1/normal", "coerced-secp256k1/short-coordinate", "pairs/equal", "pairs/different", "alt/accepted-canonical", "alt/rejected-by-parse", "alt/rejected-by-pubkey", "string/rejected", "multibase/other", "codec/unsupported", "varint/non-minimal"}
 			for _, a := range []string{"ed25519", "secp256k1", "p256", "p384", "p521", "rsa2048", "rsa3072", "rsa4096", "rsa8192"} {
 				cells = append(cells, "roundtrip/"+a)
 			}
@@ -313,6 +315,62 @@ func runC16(w *mon.W) {
 		}
 	}
 
+	// RSA public keys of every delicate shape libp2p accepts: modulus lengths on both sides of
+	// the byte / DER-length boundaries, public exponents from 3 to 2^31-1 (a DID only needs
+	// the public key, so the modulus is a random odd number of the exact bit length)
+	{
+		bitsList := []int{2048, 2049, 2055, 2056, 2057, 3072, 4095, 4096, 8191, 8192}
+		exps := []int{3, 5, 17, 257, 65537, 65539, 1<<31 - 1}
+		idx := 0
+		for _, bits := range bitsList {
+			for _, e := range exps {
+				idx++
+				if !w.Mine(idx) || (!w.Thorough() && bits > 4096 && e != 3 && e != 65537) {
+					continue
+				}
+				n := new(big.Int).SetBytes(gen.Bytes(r, (bits+7)/8))
+				n.SetBit(n, bits-1, 1)
+				for b := n.BitLen() - 1; b >= bits; b-- {
+					n.SetBit(n, b, 0)
+				}
+				n.SetBit(n, 0, 1)
+				der, err := x509.MarshalPKIXPublicKey(&rsa.PublicKey{N: n, E: e})
+				if err != nil {
+					continue
+				}
+				pub, err := crypto.UnmarshalRsaPublicKey(der)
+				if err != nil {
+					w.Count("fabricated-rsa-refused-by-libp2p", 1)
+					continue
+				}
+				alg := "rsa2048"
+				switch {
+				case bits > 4096:
+					alg = "rsa8192"
+				case bits > 3072:
+					alg = "rsa4096"
+				case bits > 2057:
+					alg = "rsa3072"
+				}
+				w.Cover("rsa-shapes")
+				if e < 65537 {
+					w.Cover("rsa-shapes/small-exponent")
+				}
+				if bits%8 != 0 {
+					w.Cover("rsa-shapes/odd-bit-length")
+				}
+				name := fmt.Sprintf("fabricated-rsa-%dbit-e%d", bits, e)
+				d, err := did.FromPubKey(pub)
+				w.Eval(1)
+				if err != nil {
+					w.Violate("frompubkey-fails/"+alg, fmt.Sprintf("did.FromPubKey failed on an RSA public key libp2p accepts (%d-bit modulus, e=%d): %v", bits, e, err), map[string]any{"key": name, "pkix_hex": mon.Hex(der)})
+					continue
+				}
+				keys = append(keys, &gen.Principal{Name: name, Alg: alg, Pub: pub, DID: d})
+			}
+		}
+	}
+
 	// ECDSA-typed keys on the secp256k1 curve are coerced to the secp256k1 key type by
 	// FromPubKey; coordinates with leading zero bytes (1 key in 64) are the delicate ones
 	{
@@ -396,7 +454,9 @@ func runC16(w *mon.W) {
 		if k2, err := did.ToPubKey(s); err != nil || !k2.Equals(p.Pub) {
 			w.Violate("roundtrip/topubkey/"+p.Alg, fmt.Sprintf("did.ToPubKey(%s) err=%v or differs", s, err), c)
 		}
-		if fp, err := did.FromPrivKey(p.Priv); err != nil || fp != d {
+		if p.Priv == nil {
+			// fabricated public key (no private key exists)
+		} else if fp, err := did.FromPrivKey(p.Priv); err != nil || fp != d {
 			w.Violate("roundtrip/fromprivkey/"+p.Alg, fmt.Sprintf("did.FromPrivKey differs from FromPubKey: %v", err), c)
 		}
 		if w.WantSample() && p.Alg != "ed25519" {
